@@ -283,14 +283,14 @@ def C17(ctx):
                      '{edit to variant okA/okB/bad/noinj/typeerr, gen (header none/ok/unreadable, prefix, tags, default-command form), diff, check, show, delete output, clobber output with stale/broken/garbage} on two packages; '
                      'each history is replayed against the real binary in a fresh sandbox with a hash snapshot of the whole tree around every command; '
                      'non-trivial = distinct (command, arguments, sources, disk-before) combinations; judge: WireCliTrace with CkStatus+CkFootprint')
-    cli.run(ctx, (True, True, False, False), 30 if ctx.quick else 600, 12 if ctx.quick else 20, focus=150 if ctx.quick else 4000)
+    cli.run(ctx, (True, True, False, False), 30 if ctx.quick else 250, 12 if ctx.quick else 20, focus=150 if ctx.quick else 2000)
 
 
 def C18(ctx):
     import cli
     ctx.rules.append('same machine and histories as C17; the content of every output file after every step is projected by byte comparison with a from-scratch generation '
                      'of the same sources and options in a pristine copy; judge: WireCliTrace with CkRegen (after a successful gen the file is what a fresh checkout gets, gen again changes nothing, diff right after gen exits 0)')
-    cli.run(ctx, (False, False, True, False), 30 if ctx.quick else 600, 14 if ctx.quick else 30, focus=100 if ctx.quick else 3000)
+    cli.run(ctx, (False, False, True, False), 30 if ctx.quick else 250, 14 if ctx.quick else 30, focus=100 if ctx.quick else 1500)
 
 
 def C01(ctx):
@@ -419,7 +419,7 @@ def C19(ctx):
         ctx.run(cases, nontrivial=nt, runtime=False, check=True, show=True)
     m = ctx.export('FamilyM(p, {1, 2, 3})', extends='WireShow', caseop='CaseShow', pre_sample=80 if ctx.quick else 2500)
     ctx.run(m, nontrivial=nt, runtime=False, check=True, show=True)
-    cli.run(ctx, (False, False, False, True), 15 if ctx.quick else 300, 10 if ctx.quick else 20)
+    cli.run(ctx, (False, False, False, True), 15 if ctx.quick else 150, 10 if ctx.quick else 20)
 
 
 PROPS = {
